@@ -28,6 +28,13 @@ StyledFails(o) ==
   \cup (IF ~nondeg \/ st.al # 0 \/ strokePx \subseteq C THEN {} ELSE {"inside_stroke_paints_outside_shape"})
   \cup (IF ~nondeg \/ st.al # 2 \/ strokePx \cap C = {} THEN {} ELSE {"outside_stroke_paints_inside_shape"})
 
+\* The same draw() on a target that reports the window w.box as its bounding box and logs whatever it receives
+\* (w.map): what it receives is part of the reference picture, and every reference pixel inside the window arrives.
+WindowFails(o, w) ==
+  LET ref == CRunsToSet(o.draw)  got == CRunsToSet(w.map) IN
+       (IF got \subseteq ref THEN {} ELSE {"window_target_paints_differently"})
+  \cup (IF \A t \in ref : InRect(w.box, <<t[1], t[2]>>) => t \in got THEN {} ELSE {"window_target_misses_pixel_inside_its_box"})
+
 Differences(o) ==
   LET exp == ExpectedPaint(o.style, RunsToSet(o.F), RunsToSet(o.S))
       drawn == CRunsToSet(o.draw)
